@@ -3,7 +3,7 @@ import copy
 import numpy as np
 
 from .base import SessionBase, HarnessError
-from .seams import load_pytenet, InjectedBackendFailure
+from .seams import load_pytenet, InjectedBackendFailure, environmental_exception
 from . import dense as dn
 
 TOL = 1e-10          # dense comparisons, times the natural scale
@@ -12,7 +12,7 @@ POOL_MAX = 9
 
 
 class Obj:
-    __slots__ = ('kind', 'ref', 'dense', 'scale', 'herm', 'tag', 'traj', 'uid', 'norm2', 'retired', 'version')
+    __slots__ = ('kind', 'ref', 'dense', 'scale', 'herm', 'tag', 'traj', 'uid', 'norm2', 'retired', 'version', 'why')
 
     def __init__(self, kind, ref, tag, uid):
         self.kind = kind
@@ -26,6 +26,7 @@ class Obj:
         self.norm2 = None
         self.retired = False
         self.version = 0
+        self.why = None
 
 
 def snap_q(q):
@@ -119,11 +120,27 @@ class TNCore(SessionBase):
             o.herm = bool(np.linalg.norm(M - M.conj().T) <= 1e-12 * max(nm, 1e-300)) and nm > 0
             o.norm2 = None
         o.scale = dn.abs_scale(r.A)
+        if not (1e-140 <= o.scale <= 1e140) and np.any(o.dense):
+            # the square of the overall magnitude is not representable: norms and inner products of the object as a whole
+            # are outside double precision (long chains of uniformly tiny / huge tensors); nothing can be judged on it
+            o.retired = True
+            o.why = 'magnitude'
+            o.dense = None
+            self.probe('object_with_unrepresentable_overall_magnitude_retired')
+            return
         if not np.all(np.isfinite(o.dense)):
             # non-finite entries (the producing operation has been judged already): nothing can be judged on it later
             o.retired = True
             o.dense = None
             self.probe('object_with_nonfinite_entries_retired')
+
+    def unusable(self, o, props, what):
+        """A result that cannot be contracted / has non-finite entries is a violation; one whose overall magnitude has left
+        the representable range of squared norms (operands near the limits) is merely outside the model."""
+        if o.why == 'magnitude':
+            self.skip('result_of_unrepresentable_overall_magnitude')
+        else:
+            self.check(False, props, 'object_unusable', what)
 
     def opnorm2(self, o):
         if o.norm2 is None:
@@ -312,6 +329,14 @@ class TNCore(SessionBase):
             self.probe('raise_fired_in_op')
             for o in targets:
                 o.retired = True   # a torn target is outside every property; it leaves the pool
+            self.pool = [x for x in self.pool if not x.retired]
+            return 'injected', None
+        if environmental_exception(exc, oenv) and 'GLOBALS' in env.enabled:
+            # the caller's own global settings (warnings as errors / numpy error state 'raise') turned a warning into
+            # an exception: the call failed at the caller's request; bystanders were compared above, targets are torn
+            self.probe('environmental_exception:' + type(exc).__name__ + ':' + str(exc)[:48])
+            for o in targets:
+                o.retired = True
             self.pool = [x for x in self.pool if not x.retired]
             return 'injected', None
         msg = f'{type(exc).__name__}: {exc}'
